@@ -2,6 +2,7 @@ package gem
 
 import (
 	"fmt"
+	"math"
 	"strings"
 )
 
@@ -159,12 +160,12 @@ func satisfiesPessimistic(version, constraint *Version) bool {
 	if _, prerelease := constraint.splitNumericAndPrerelease(); len(prerelease) > 0 {
 		// Special case kept from the existing behaviour: a constraint with a prerelease
 		// (~> 1.0.0-alpha) only admits versions of that same release
-		upper[len(upper)-1]++
+		upper[len(upper)-1] = bump(upper[len(upper)-1])
 	} else {
 		if len(upper) > 1 {
 			upper = upper[:len(upper)-1]
 		}
-		upper[len(upper)-1]++
+		upper[len(upper)-1] = bump(upper[len(upper)-1])
 	}
 
 	// The release part of the version must be below the upper bound
@@ -182,6 +183,14 @@ func satisfiesPessimistic(version, constraint *Version) bool {
 		}
 	}
 	return false
+}
+
+// bump increments a release segment; a segment too large for an int (kept as math.MaxInt) stays as it is
+func bump(n int) int {
+	if n == math.MaxInt {
+		return n
+	}
+	return n + 1
 }
 
 // releaseSegments returns the leading numeric segments of a version as written (trailing zeros
